@@ -263,6 +263,12 @@ func (c *client) onConnChannelsReached(conn internalConn) {
 	c.mu.Lock()
 	defer c.mu.Unlock()
 
+	// Do not connect when closed, Close has emptied the connection list,
+	// so the check below would start a new connection.
+	if c.closed_.IsSet() {
+		return
+	}
+
 	max := c.options.ClientMaxConns
 	if max <= 0 {
 		return
